@@ -166,7 +166,9 @@ def check_pair(chk, dadi, key, what, inp, fa, fb, pts, ndim, cost=0.0):
     except Exception as e:
         tb = traceback.format_exc().strip().split('\n')
         where = [l for l in tb if 'dadi' in l and 'File' in l]
-        chk.fail(key + ':raises:' + type(e).__name__, '%s: raises %s: %s  (%s)' % (what, type(e).__name__, str(e)[:200], where[-1].strip() if where else ''), inp)
+        import re as _re
+        slug = _re.sub(r'[^a-z]+', '-', _re.sub(r"'[^']*'|\"[^\"]*\"", 'Q', str(e)).lower()).strip('-')[:48]   # message shape, names and numbers removed
+        chk.fail(key + ':raises:' + type(e).__name__ + ':' + slug, '%s: raises %s: %s  (%s)' % (what, type(e).__name__, str(e)[:200], where[-1].strip() if where else ''), inp)
         return 'raises'
     chk.stat('agree:%s:%s' % (key.split(':')[0], v))
     if v == 'different':
